@@ -82,6 +82,9 @@ impl CaseReport {
 pub struct Stats {
     pub evaluations: u64,
     pub nontrivial: HashSet<u64>,
+    /// Non-trivial cases that are distinct by construction (exhaustive
+    /// enumerations pass an empty key and are counted without hashing).
+    pub nontrivial_counted: u64,
     pub classes: BTreeMap<String, u64>,
     pub discarded: BTreeMap<String, u64>,
     pub excluded_known: BTreeMap<String, u64>,
@@ -93,6 +96,7 @@ impl Stats {
     fn merge(&mut self, o: Stats) {
         self.evaluations += o.evaluations;
         self.nontrivial.extend(o.nontrivial);
+        self.nontrivial_counted += o.nontrivial_counted;
         for (k, v) in o.classes {
             *self.classes.entry(k).or_default() += v;
         }
@@ -175,50 +179,60 @@ pub fn derive_seed(seed: u64, prop: &str, sub: &str, shard: usize) -> u64 {
 // ---------------------------------------------------------------- watchdog
 
 const SLOTS: usize = 64;
-static WATCH: Mutex<Vec<Option<(Instant, String)>>> = Mutex::new(Vec::new());
+#[allow(clippy::declare_interior_mutable_const)]
+const EMPTY_SLOT: Mutex<Option<(Instant, String)>> = Mutex::new(None);
+static WATCH: [Mutex<Option<(Instant, String)>>; SLOTS] = [EMPTY_SLOT; SLOTS];
 static WATCH_LIMIT_MS: AtomicU64 = AtomicU64::new(30_000);
 thread_local! {
-    static SLOT: RefCell<usize> = RefCell::new(usize::MAX);
+    static SLOT: std::cell::Cell<usize> = std::cell::Cell::new(usize::MAX);
 }
 static NEXT_SLOT: AtomicU64 = AtomicU64::new(0);
 
 fn my_slot() -> usize {
     SLOT.with(|s| {
-        let mut s = s.borrow_mut();
-        if *s == usize::MAX {
-            *s = (NEXT_SLOT.fetch_add(1, Ordering::SeqCst) as usize) % SLOTS;
+        if s.get() == usize::MAX {
+            s.set((NEXT_SLOT.fetch_add(1, Ordering::SeqCst) as usize) % SLOTS);
         }
-        *s
+        s.get()
     })
 }
 
 /// Mark the start of a potentially long call into the code under test.
 pub fn watch_begin(input: &str) {
-    let slot = my_slot();
-    let mut w = WATCH.lock().unwrap();
-    if w.len() < SLOTS {
-        w.resize(SLOTS, None);
+    let mut w = WATCH[my_slot()].lock().unwrap();
+    match w.as_mut() {
+        Some((t, s)) => {
+            *t = Instant::now();
+            s.clear();
+            s.push_str(input);
+        }
+        None => *w = Some((Instant::now(), input.to_string())),
     }
-    w[slot] = Some((Instant::now(), input.to_string()));
 }
 
 pub fn watch_end() {
-    let slot = my_slot();
-    let mut w = WATCH.lock().unwrap();
-    if w.len() < SLOTS {
-        w.resize(SLOTS, None);
+    // keep the allocation, mark idle by an empty-string sentinel with a far-future start
+    let mut w = WATCH[my_slot()].lock().unwrap();
+    if let Some((_, s)) = w.as_mut() {
+        s.clear();
+        s.push('\u{0}');
     }
-    w[slot] = None;
 }
 
 fn start_watchdog(prop: &'static str) {
     std::thread::spawn(move || loop {
         std::thread::sleep(std::time::Duration::from_millis(500));
         let limit = WATCH_LIMIT_MS.load(Ordering::Relaxed);
-        let hung = {
-            let w = WATCH.lock().unwrap();
-            w.iter().flatten().find(|(t, _)| t.elapsed().as_millis() as u64 > limit).map(|(_, s)| s.clone())
-        };
+        let mut hung = None;
+        for slot in WATCH.iter() {
+            let w = slot.lock().unwrap();
+            if let Some((t, s)) = w.as_ref() {
+                if s != "\u{0}" && t.elapsed().as_millis() as u64 > limit {
+                    hung = Some(s.clone());
+                    break;
+                }
+            }
+        }
         if let Some(input) = hung {
             let dir = format!("{}/replays/{}", VERIF, prop);
             let _ = std::fs::create_dir_all(&dir);
@@ -286,7 +300,11 @@ impl Ctx {
         match rep.verdict {
             Verdict::Pass => {
                 if rep.nontrivial {
-                    st.nontrivial.insert(hash_key(&rep.key));
+                    if rep.key.is_empty() {
+                        st.nontrivial_counted += 1;
+                    } else {
+                        st.nontrivial.insert(hash_key(&rep.key));
+                    }
                 }
                 for c in &rep.classes {
                     *st.classes.entry((*c).to_string()).or_default() += 1;
@@ -324,7 +342,10 @@ impl Ctx {
         let text = serde_json::to_string_pretty(&body).unwrap();
         let path = format!("{}/{:016x}.json", dir, fnv(&format!("{}{}", sub, body["case"])));
         let _ = std::fs::write(&path, text);
-        self.violations.lock().unwrap().push(Violation { sig: sig.to_string(), replay: path });
+        let mut v = self.violations.lock().unwrap();
+        if !v.iter().any(|x| x.replay == path) {
+            v.push(Violation { sig: sig.to_string(), replay: path });
+        }
     }
 
     pub fn failed(&self) -> bool {
@@ -354,6 +375,7 @@ impl Ctx {
         f: impl Fn(&T) -> CaseReport + Sync,
         to_json: impl Fn(&T) -> Value + Sync,
     ) {
+        let _t = SubTimer::new(sub);
         let shards = (self.threads as u64).min(total.max(1)) as usize;
         // interleave blocks so that every shard sees small indices first
         let block: u64 = 256;
@@ -410,6 +432,7 @@ impl Ctx {
         S: Strategy,
         S::Value: Clone + std::fmt::Debug,
     {
+        let _t = SubTimer::new(sub);
         let shards = (self.threads as u64).min(cases.max(1)) as usize;
         let per = (cases + shards as u64 - 1) / shards as u64;
         let stop = AtomicBool::new(false);
@@ -526,7 +549,7 @@ impl Ctx {
         let wall = self.start.elapsed().as_secs_f64();
         let mut cov = serde_json::Map::new();
         cov.insert("evaluations".into(), json!(st.evaluations));
-        cov.insert("distinct_nontrivial".into(), json!(st.nontrivial.len()));
+        cov.insert("distinct_nontrivial".into(), json!(st.nontrivial.len() as u64 + st.nontrivial_counted));
         cov.insert("rule".into(), json!(*self.rule.lock().unwrap()));
         cov.insert("samples".into(), json!(st.samples));
         cov.insert("classes".into(), json!(st.classes));
@@ -573,7 +596,7 @@ impl Ctx {
             self.tier.name(),
             self.seed,
             st.evaluations,
-            st.nontrivial.len(),
+            st.nontrivial.len() as u64 + st.nontrivial_counted,
             viol.len(),
             wall
         );
@@ -591,6 +614,20 @@ impl Ctx {
             return 2;
         }
         0
+    }
+}
+
+struct SubTimer(String, Instant);
+impl SubTimer {
+    fn new(s: &str) -> Self {
+        SubTimer(s.to_string(), Instant::now())
+    }
+}
+impl Drop for SubTimer {
+    fn drop(&mut self) {
+        if std::env::var("VERIF_VERBOSE").is_ok() {
+            eprintln!("  [{}] {:.2}s", self.0, self.1.elapsed().as_secs_f64());
+        }
     }
 }
 
